@@ -36,3 +36,29 @@ for f in sorted(os.listdir(kd)):
             print('%s: commit %s not on main (subject %r)' % (f, c, subj[:60]))
     if changed:
         json.dump(js, open(p, 'w'), indent=1)
+
+# --- sweep of texts (notes, manifest sources, model comments): a 7..10-hex token that names a commit which is NOT on main but whose
+# subject line is the subject of a main commit is rewritten to that main commit (hashes of private branches before the cherry-pick)
+import glob
+texts = (glob.glob(os.path.join(here, '..', 'docs', 'notes', '*.md')) + glob.glob(os.path.join(here, '..', 'tools', 'manifest.d', '*.json'))
+         + glob.glob(os.path.join(here, '..', 'lean', 'Pyg*', '**', '*.lean'), recursive=True) + glob.glob(os.path.join(here, '..', 'harness', 'pv', 'props', '*.py'))
+         + [os.path.join(here, '..', 'DESIGN.md')])
+memo = {}
+
+
+def remap(tok):
+    if tok not in memo:
+        memo[tok] = None
+        if not any(m.startswith(tok) or tok.startswith(m) for m in main_hashes):
+            subj = git('log', '-1', '--format=%s', tok).strip() if git('cat-file', '-t', tok).strip() == 'commit' else ''
+            if subj.startswith('fix:') and subj in main:
+                memo[tok] = main[subj]
+    return memo[tok]
+
+
+for p in texts:
+    s = open(p).read()
+    out = re.sub(r'(?<![0-9a-f])[0-9a-f]{7,10}(?![0-9a-f])', lambda m: remap(m.group(0)) or m.group(0), s)
+    if out != s:
+        open(p, 'w').write(out)
+        print('rewrote stale hashes in', os.path.relpath(p, os.path.join(here, '..')))
